@@ -96,6 +96,19 @@ ENGINES = [
   "serves_properties": ["C08", "C17"],
   "kind_free_text": "query AST model (access/prepare/get/borrows, iterators, views, batched, prepared); 110 generated self-describing query types"},
 ]
+PARTIAL = {
+ "C03": "Partial in one respect: panics raised by user code (component Clone/Drop impls) and the unwinding they cause are not modelled.",
+ "C04": "Partial by nature: memory safety is a fact about the machine execution; the theorems cover the layout arithmetic it rests on "
+        "(capacities, alignment, bounds, disjointness, arena placement, row existence), the run-time address / allocator / "
+        "alignment oracles cover the executions run; no MSan-like detection of uninitialised reads.",
+ "C05": "Full for the sequential protocol; one recorded known finding (F9: a failed acquisition keeps its partial borrows) is reported "
+        "as KNOWN-FINDING and proved as a witness lemma.",
+ "C06": "Partial: coherence of single-location atomic RMWs is assumed; whether Acquire/Release suffice for the protected data is a "
+        "memory-model question outside this technique.",
+ "C07": "Partial as C06: each call contains one atomic RMW on free_cursor, interleavings are sequences of calls.",
+ "C14": "Full for the token-tree abstraction of serde; the byte-level codecs (serde_json, bincode) are exercised, not modelled.",
+ "C15": "Full for the token-tree abstraction; entity ids capped at 4096 on the implementation side only (allocatable sizes).",
+}
 WIP = "check not built/proved yet in this round (work in progress, see DESIGN.md); not a statement that the technique cannot apply"
 checks, na = [], []
 for p in props:
@@ -113,7 +126,7 @@ for p in props:
                                       "inputs/histories over an executable Gallina model; the model is tied to /repo on every "
                                       "run by a differential correspondence check (extracted OCaml model vs Rust harness linked "
                                       "against the rebuilt /repo, sample re-evaluated with vm_compute) plus an "
-                                      "implementation-only property oracle." % i,
+                                      "implementation-only property oracle. %s" % (i, PARTIAL.get(i, "")),
                               "design_ref": "DESIGN.md section 4 (%s)" % i},
             "level_note": "Trusted: Coq 8.16.1 kernel, extraction (ExtrOcamlBasic), OCaml driver, Rust harness and generators; "
                           "hand-written model (coq/Model). No axioms (Print Assumptions checked on every run).",
@@ -123,7 +136,7 @@ for p in props:
 m = {"version": 1, "setup_cmd": "tools/check --setup",
      "hooks": {"guard": "hecs_verif", "enable": "RUSTFLAGS=\"--cfg hecs_verif\" (set by tools/hvlib.py for every harness build)",
                "baseline_off_cmd": "cd /repo && cargo test --workspace --no-fail-fast --offline",
-               "source_commits": ["8f2462a"], "add_only": True},
+               "source_commits": ["8f2462a", "3c04c35"], "add_only": True},
      "engines": ENGINES, "checks": checks, "not_applicable": na,
      "notes": "All checks: tools/check <id> [--tier quick|thorough]. Proof side: make -C coq (full .vo) + source audit (no "
               "Admitted/Axiom/...) + Print Assumptions of every property theorem (thorough: + coqchk). Implementation side "
